@@ -280,6 +280,12 @@ async def episode_mqtt(loop: vloop.VirtualLoop, ctx, pid: str, trial: int) -> No
             loop.call_later(t_off, client.deliver, topic, b"offline")
             loop.call_later(t_off + rng.choice((0.1, 1.0, 6.0)), client.deliver, topic, b"online")
             meta["status_flap"] = True
+        if rng.random() < 0.5:  # another ramses_esp on the same broker (the default topic is a wild card) comes and goes
+            other = "RAMSES/GATEWAY/18:222222"
+            for t_, what in sorted((rng.choice((0.02, 0.2, 0.9, 2.5)), rng.choice((b"online", b"offline", b"online"))) for _ in range(rng.choice((1, 2, 3)))):
+                loop.call_later(t_, client.deliver, other, what)
+            meta["other_gateway_on_broker"] = True
+            ctx.count("mqtt.episodes_with_other_gateway")
         await asyncio.wait(tasks, timeout=120)
         script.on = False
         await asyncio.sleep(30.0)
@@ -307,8 +313,11 @@ async def episode_mqtt(loop: vloop.VirtualLoop, ctx, pid: str, trial: int) -> No
                     ctx.violate("C08|integration-mqtt|transmitted-after-completion", "a command was published after its caller had been given a result or an error", {"call": rec, "publishes_vt": mine, "episode": meta})
         if pid == "C09":
             ctx.count("mqtt.probes")
+            # the fresh command: a request, or a frame sent in the gateway's own name (its echo carries the real id)
+            probe = Command.from_attrs("RQ", CTL, "30C9", "0B") if rng.random() < 0.5 else Command(" I --- 18:000730 --:------ 18:000730 0008 002 00C8")
+            meta["probe"] = str(probe)
             try:
-                await asyncio.wait_for(gwy.async_send_cmd(Command.from_attrs("RQ", CTL, "30C9", "0B"), max_retries=1, timeout=5, wait_for_reply=True), timeout=30)
+                await asyncio.wait_for(gwy.async_send_cmd(probe, max_retries=1, timeout=5, wait_for_reply=probe.verb == "RQ"), timeout=30)
             except Exception as err:  # noqa: BLE001
                 ctx.violate(f"C09|integration-mqtt|probe-failed|{type(err).__name__}", "on the MQTT transport a fresh command to a responsive device fails after the episode", {"error": repr(err)[:160], "calls": history, "episode": meta})
             for u in loop.unhandled[n_unhandled:]:
